@@ -63,6 +63,7 @@ var routeSets = []map[string][]string{
 	{"/a/{x}/b/{y}": {"get", "post"}, "/a/{x}/b": {"get"}, "/{x}": {"head"}},
 	{"/a/": {"get"}, "/{x}/": {"get"}, "/{x}/{y}/": {"get"}},
 	{"/a/b": {"get"}, "/a/{x}": {"post"}},
+	{"/u/{id}/p": {"get"}, "/u/{uid}/q": {"get"}, "/u/{uid}": {"put"}, "/{id}/u": {"get"}, "/{name}": {"get"}},
 }
 
 type baseForm struct {
@@ -88,8 +89,8 @@ func RouteCorpus(dir string, tier string, seed int64) []CorpusEntry {
 	}
 	for i, set := range routeSets {
 		bf := baseForms[i%len(baseForms)]
-		if tier == "quick" && i >= 5 {
-			break
+		if tier == "quick" && i >= 5 && i != 8 {
+			continue
 		}
 		add(fmt.Sprintf("route-%02d-%s", i, bf.name), routeSpec(bf.servers, set), bf.flag, false)
 	}
